@@ -113,6 +113,8 @@ def run(rep):
                     n_ok += 1
     rep.count("pairs_equal", n_ok)
     rep.count("pairs_raising_together", n_raise)
+    from .. import scalechecks
+    scalechecks.nonsep(rep, "C19", rep.tier)          # large inputs (size thresholds)
     rep.assumptions += ["linearity of both routines (C07) makes equality on the identity batch equality for all inputs",
                         "integer filters: float64 arithmetic exact, comparison is torch.equal"]
 
